@@ -10,7 +10,8 @@ class C05(RecorderProp):
             'with the same program; 30% of the cases declare what-to-do-when-missing policies on inputs; the kill switch (enable_recording / disable_recording) flipped by the running code at any step; spy '
             'cassette log create/save/abort; + operations recorded through the asynchronous wrapper that another thread / the operation '
             'itself closes at every point (before, between and after its interceptions, explicit flushes in between): what the '
-            'wrapped cassette then holds replays without a missing key or is flagged incomplete; non-trivial = a run that opened a '
+            'wrapped cassette then holds replays without a missing key or is flagged incomplete; + operations that replay a known / unknown reference '
+            'recording while they are recorded (not modelled: their recording is still finalised exactly once); non-trivial = a run that opened a '
             'recording scope')
     OPTS = dict(ALL_OPTS, play_ratio=0.0, missing_play=False, cassettes=['memory', 'memory', 'file', 's3', 'async'], runs=(1, 3),
                 data=False)   # play_data answers differently while recording and replaying: not 'the same deterministic code'
@@ -48,6 +49,11 @@ class C05(RecorderProp):
             if pos <= len(steps):
                 steps.insert(pos, ['close', rng.choice(['thread', 'direct'])])      # else: closed after the operation
             cases.append({'kind': 'asyncclose', 'model': False, 'steps': steps, 'end': rng.choice(['ret', 'ret', 'raise'])})
+        for _ in range(self.ASYNC[tier] // 6):
+            steps = [[rng.choice(['in', 'in', 'out']), rng.randint(0, 3)] for _ in range(rng.randint(0, 4))]
+            for _ in range(rng.choice([1, 1, 2])):
+                steps.insert(rng.randint(0, len(steps)), ['play', rng.choice(['known', 'known', 'unknown'])])
+            cases.append({'kind': 'playinside', 'model': False, 'steps': steps, 'end': rng.choice(['ret', 'ret', 'raise'])})
         return cases
 
     def run_async_case(self, case):
@@ -120,24 +126,91 @@ class C05(RecorderProp):
             out['stored'].append({'keys': sorted(rec.get_all_keys()), 'incomplete': meta.get(TapeRecorder.INCOMPLETE_RECORDING), 'replay': replay})
         return out
 
+    # -- an operation that replays a reference recording while it is being recorded (a recorded "regression check") ----------
+    # (replaying inside a recorded operation is outside the model; whatever it does to the numbering of the outputs, the
+    # recording scope around it still finalises its recording exactly once)
+    def run_playinside_case(self, case):
+        from playback.tape_recorder import TapeRecorder
+        from playback.tape_cassettes.in_memory.in_memory_tape_cassette import InMemoryTapeCassette
+        cassette = InMemoryTapeCassette()
+        tr = TapeRecorder(cassette)
+        tr.enable_recording()
+        log = []
+        for name in ('create_new_recording', 'save_recording', 'abort_recording'):
+            def spy(*a, _real=getattr(cassette, name), _name=name.split('_')[0], **kw):
+                log.append(_name)
+                return _real(*a, **kw)
+            setattr(cassette, name, spy)
+
+        def q(self_, a):
+            return a * 2
+
+        def snd(self_, a):
+            return 'ack'
+
+        def ref_run(self_):
+            self_.snd(1)
+            return self_.q(3)
+        Ref = type('Ref', (object,), {'q': tr.intercept_input('q')(q), 'snd': tr.intercept_output('snd')(snd),
+                                      'run': tr.operation()(ref_run)})
+        Ref().run()
+        ref_id = cassette.get_last_recording_id()
+        del log[:]
+
+        def outer_run(self_):
+            got = []
+            for st in case['steps']:
+                if st[0] == 'in':
+                    got.append(self_.q(st[1]))
+                elif st[0] == 'out':
+                    got.append(self_.snd(st[1]))
+                else:
+                    try:
+                        tr.play(ref_id if st[1] == 'known' else 'Ref/unknown', lambda recording: Ref().run())
+                        got.append('played')
+                    except Exception as ex:
+                        got.append(type(ex).__name__)
+            if case['end'] == 'raise':
+                raise ValueError('op')
+            return got
+        Outer = type('Outer', (object,), {'q': tr.intercept_input('q')(q), 'snd': tr.intercept_output('snd')(snd),
+                                          'run': tr.operation()(outer_run)})
+        try:
+            end = ['ret', Outer().run()]
+        except Exception as ex:
+            end = ['exc', type(ex).__name__]
+        return {'end': end, 'log': list(log), 'idle': [bool(tr.in_recording_mode), bool(tr.in_playback_mode)]}
+
     def run_impl(self, case):
+        if case.get('kind') == 'playinside':
+            return self.run_playinside_case(case)
         if case.get('kind') == 'asyncclose':
             return self.run_async_case(case)
         return super(C05, self).run_impl(case)
 
     def sample_repr(self, case):
-        return case if case.get('kind') == 'asyncclose' else super(C05, self).sample_repr(case)
+        return case if case.get('kind') in ('asyncclose', 'playinside') else super(C05, self).sample_repr(case)
 
     def features(self, case, impl):
+        if case.get('kind') == 'playinside':
+            return ['replay-inside-a-recorded-operation', 'replay-inside:log=' + '+'.join(impl['log'])]
         if case.get('kind') == 'asyncclose':
             return ['async-wrapper:closed-' + ('mid-operation' if any(s[0] == 'close' for s in case['steps']) else 'after-operation'),
                     'async-wrapper:stored=%d' % len(impl['stored'])]
         return super(C05, self).features(case, impl)
 
     def shrink(self, case):
-        return [] if case.get('kind') == 'asyncclose' else super(C05, self).shrink(case)
+        return [] if case.get('kind') in ('asyncclose', 'playinside') else super(C05, self).shrink(case)
 
     def oracle(self, case, impl):
+        if case.get('kind') == 'playinside':
+            fails = []
+            if impl['log'] not in (['create', 'save'], ['create', 'abort']):
+                fails.append('an operation that replays a recording while it is recorded (steps %r): its recording was not finalised '
+                             'exactly once, the cassette saw %r' % (case['steps'], impl['log']))
+            if impl['idle'] != [False, False]:
+                fails.append('an operation that replays a recording while it is recorded: the recorder is not idle afterwards %r' % (impl['idle'],))
+            return fails
         if case.get('kind') == 'asyncclose':
             fails = []
             if len(impl['stored']) > 1:
@@ -173,7 +246,7 @@ class C05(RecorderProp):
         return fails
 
     def nontrivial(self, case, impl):
-        if case.get('kind') == 'asyncclose':
+        if case.get('kind') in ('asyncclose', 'playinside'):
             return True
         return any(r.get('log') for r in impl)
 
